@@ -214,6 +214,29 @@ static void doDstu(const vx_cmd* c)
 	memset(xp, 0, no); memset(rec, 0, 2 * no);
 	jInt("rcCompQ", dstuPointCompress(xp, P, pub)); jOct("xpQ", xp, no);
 	jInt("rcRecQ", dstuPointRecover(rec, P, xp)); jOct("recQ", rec, 2 * no);
+	/* C11 (dstu.h: "point and xpoint may overlap"): xpoint swept over every offset at which it shares an octet with point
+	   (compression) and point over every such offset against xpoint (recovery), in one arena; the offsets at which the
+	   result differs from the disjoint-buffer result above are logged (expected: none) */
+	if (e == ERR_OK)
+	{
+		octet* ar = (octet*)xalloc(6 * no + 8); long o; long long bad[64]; size_t nb = 0, npl = 0;
+		for (o = -(long)no + 1; o < (long)(2 * no); ++o)
+		{
+			octet* pt = ar + 2 * no; octet* x = pt + o;
+			memset(ar, 0xC3, 6 * no + 8); memcpy(pt, pub, 2 * no); ++npl;
+			if (dstuPointCompress(x, P, pt) != ERR_OK || memcmp(x, xp, no) != 0) { if (nb < 64) bad[nb++] = o; }
+		}
+		jInt("ovCompN", (long long)npl); jIntArr("ovComp", bad, nb);
+		nb = 0; npl = 0;
+		for (o = -(long)(2 * no) + 1; o < (long)no; ++o)
+		{
+			octet* x = ar + 2 * no + 4; octet* pt = x + o;
+			memset(ar, 0xC3, 6 * no + 8); memcpy(x, xp, no); ++npl;
+			if (dstuPointRecover(pt, P, x) != ERR_OK || memcmp(pt, rec, 2 * no) != 0) { if (nb < 64) bad[nb++] = o; }
+		}
+		jInt("ovRecN", (long long)npl); jIntArr("ovRec", bad, nb);
+		free(ar);
+	}
 	/* recovery from the flipped trace bit: the other point with this abscissa (-Q) */
 	xp[0] ^= 1; memset(rec, 0, 2 * no);
 	jInt("rcRecQf", dstuPointRecover(rec, P, xp)); jOct("xpQf", xp, no); jOct("recQf", rec, 2 * no);
